@@ -458,3 +458,94 @@ func derivedFlagsFresh(c *Ctx, rule string) {
 	c.count("derived_flag_assignments", n)
 	c.floor(rule, 1)
 }
+
+// layoutFlagAfterWhitespace: C08.R9 — a layout flag that records "the construct spans several lines" is decided after
+// the whitespace in front of the closing delimiter has been consumed. Decided earlier, a construct whose only line
+// break is that whitespace is taken for a single-line one and re-written on one line — and when its last line ends in
+// a // comment, the closing delimiter ends up inside the comment and the formatted file does not parse.
+func layoutFlagAfterWhitespace(c *Ctx, rule string) {
+	pp := c.pkg("parser/v2")
+	info := pp.TypesInfo
+	n := 0
+	for _, sc := range fileScopes(pp) {
+		var bodies []*ast.BlockStmt
+		ast.Inspect(sc.Body, func(x ast.Node) bool {
+			if fl, ok := x.(*ast.FuncLit); ok {
+				bodies = append(bodies, fl.Body)
+			}
+			return true
+		})
+		bodies = append(bodies, sc.Body)
+		for _, body := range bodies {
+			for i, st := range body.List {
+				is, ok := st.(*ast.IfStmt)
+				if !ok {
+					continue
+				}
+				// if <saved line> != <input>.Position().Line { <x>.Multiline = true }
+				be, ok := is.Cond.(*ast.BinaryExpr)
+				if !ok || be.Op != token.NEQ || !strings.HasSuffix(types.ExprString(be.Y), ".Position().Line") && !strings.HasSuffix(types.ExprString(be.X), ".Position().Line") {
+					continue
+				}
+				flag := ""
+				for _, bs := range is.Body.List {
+					if as, ok := bs.(*ast.AssignStmt); ok && len(as.Lhs) == 1 {
+						if se, ok := as.Lhs[0].(*ast.SelectorExpr); ok && types.ExprString(as.Rhs[0]) == "true" {
+							if t := info.TypeOf(se); t != nil && t.String() == "bool" {
+								// only constructs that hold Go source (a // comment can end their last line)
+								holdsGo := false
+								if st, ok := info.TypeOf(se.X).Underlying().(*types.Struct); ok {
+									for fi := 0; fi < st.NumFields(); fi++ {
+										if nt, ok := st.Field(fi).Type().(*types.Named); ok && nt.Obj().Name() == "Expression" {
+											holdsGo = true
+										}
+									}
+								}
+								if holdsGo {
+									flag = se.Sel.Name
+								}
+							}
+						}
+					}
+				}
+				if flag == "" {
+					continue
+				}
+				n++
+				late := ""
+				for _, later := range body.List[i+1:] {
+					consumesWS := false
+					ast.Inspect(later, func(y ast.Node) bool {
+						if call, ok := y.(*ast.CallExpr); ok {
+							if se, ok := call.Fun.(*ast.SelectorExpr); ok && se.Sel.Name == "Parse" && strings.Contains(types.ExprString(se.X), "Whitespace") {
+								consumesWS = true
+							}
+						}
+						return true
+					})
+					if consumesWS {
+						late = c.pos(later.Pos())
+						break
+					}
+					// stop at the first statement that parses something else (the closing delimiter)
+					parses := false
+					ast.Inspect(later, func(y ast.Node) bool {
+						if call, ok := y.(*ast.CallExpr); ok {
+							if se, ok := call.Fun.(*ast.SelectorExpr); ok && se.Sel.Name == "Parse" {
+								parses = true
+							}
+						}
+						return true
+					})
+					if parses {
+						break
+					}
+				}
+				c.check(late == "", rule, fmt.Sprintf("%s|%s-decided-after-trailing-whitespace", funcKey(pp, sc), flag), c.pos(is.Pos()), "."+flag+" is decided after the whitespace before the closing delimiter was read",
+					fmt.Sprintf("%s decides .%s and only then consumes whitespace (%s) in front of the closing delimiter: a line break there is not counted, the formatter joins the construct onto one line, and when the last line ends in a // comment the closing delimiter lands inside the comment (`{{ x := 1 // note` + newline + `}}` becomes `{{ x := 1 // note }}`, which does not parse)", sc.Name.Name, flag, late))
+			}
+		}
+	}
+	c.count("line_span_flag_decisions", n)
+	c.floor(rule, 1)
+}
